@@ -14,6 +14,11 @@
 (*   items sequence of [t, y, s]:  t in 0..C single-label truth (0 = no    *)
 (*         label), y 0/1 indicator sequence (multilabel task only, else    *)
 (*         <<>>), s sequence of C score ticks                              *)
+(*         and, for sound_event_detection, m: how the event pair exists -- *)
+(*         "both" a prediction and an annotation that overlap fully (one   *)
+(*         matched item), "pred"/"pred0" a prediction nothing annotated    *)
+(*         overlaps (0: it has no geometry), "ann"/"ann0" an annotation    *)
+(*         nothing predicted overlaps.  Absent m = "both".                 *)
 (*   clips sequence of sequences of item indices (cc/cml: one item each;   *)
 (*         sec/sed: the sound events of each clip, possibly none)          *)
 (*   extras sequence of [pos, side]: clips that are in ONE input only      *)
@@ -175,8 +180,19 @@ MetricOfLabel(label) ==
       [] OTHER -> "unknown"
 MetricOf(m) == IF MetricOfName(m.name) # "unknown" THEN MetricOfName(m.name) ELSE MetricOfLabel(m.label)
 
+\* Detection: the evaluated items include the events the matching leaves alone.  An unmatched prediction is an item
+\* with its scores and no true class ('none'); an unmatched annotation is an item with its class for which nothing
+\* was predicted (every score 0, so all the mass is on 'none').
+MatchKind(it) == IF "m" \in DOMAIN it THEN it.m ELSE "both"
+PredOnly(it)  == MatchKind(it) \in {"pred", "pred0"}
+AnnOnly(it)   == MatchKind(it) \in {"ann", "ann0"}
+Eff(it) == IF PredOnly(it) THEN [t |-> 0, y |-> it.y, s |-> it.s]
+           ELSE IF AnnOnly(it) THEN [t |-> it.t, y |-> it.y, s |-> [k \in DOMAIN it.s |-> 0]]
+           ELSE [t |-> it.t, y |-> it.y, s |-> it.s]
+EffSeq(its) == [i \in DOMAIN its |-> Eff(its[i])]
+
 \* what metric `mid` may be worth over the items `its` of one unit (evaluation: all; clip: its items; match: one)
-Allowed(mid, task, its, C, u) ==
+AllowedOn(mid, task, its, C, u) ==
     IF Len(its) = 0 THEN NoDemand
     ELSE IF SingleLabel(task) THEN
         CASE mid = "acc"  -> Vals(AccSet(its, C, u))
@@ -190,6 +206,8 @@ Allowed(mid, task, its, C, u) ==
           [] mid = "ap"   -> IF Len(its) = 1 THEN ClipAP(its[1], u) ELSE NoDemand
           [] mid = "jac"  -> IF Len(its) = 1 THEN Vals(JaccardSet(its[1], u)) ELSE NoDemand
           [] OTHER -> NoDemand
+
+Allowed(mid, task, its, C, u) == AllowedOn(mid, task, EffSeq(its), C, u)
 
 (* ---------------- the tables of the four task modules (Impl) ---------------- *)
 T_bacc == "soundevent_metrics:balancedAccuracy"
@@ -308,7 +326,7 @@ RunValues(c, r, sel(_)) ==
                 (mt.item \in 1..Len(c.items) /\ mt.src /\ mt.tgt) =>
                     \A i \in DOMAIN mt.metrics : ok(mt.metrics[i], <<c.items[mt.item]>>)
 
-HasUnlabelled(c) == SingleLabel(c.task) /\ \E i \in DOMAIN c.items : c.items[i].t = 0
+HasUnlabelled(c) == SingleLabel(c.task) /\ \E i \in DOMAIN c.items : Eff(c.items[i]).t = 0
 
 \* scores of a level that are present
 Present(opts) == LET idx == SelectSeq([i \in 1..Len(opts) |-> i], LAMBDA i : ~IsNone(opts[i]))
